@@ -18,7 +18,7 @@ SPEC = {
     ],
     # class number = Roles.fclass_code of the field class whose role check is missing
     'known': {'9': 'F07'},
-    'rule': 'round context: every verdict is taken in a randomly drawn round - commit: previous merkle outcome type (none, '
+    'rule': 'RMN remote config shapes: complete with 1..3 signers, non-empty only through F=1, complete except F=0 and no signers (RMN not enforced), address only; round context: every verdict is taken in a randomly drawn round - commit: previous merkle outcome type (none, '
             'ReportIntervalsSelected .. ReportTransmissionFailed, out of range) x query (empty / retry flag / RMN signatures present / both) x '
             'RMN enabled or not x discovery processor present or not x contracts initialised or not; execute: previous outcome state '
             '(none, Unknown, Initialized, GetCommitReports, GetMessages, Filter) x discovery present or not x contracts initialised or not; '
